@@ -1,2 +1,133 @@
-(* placeholder while the model is validated *)
-From Delb.Xml Require Import Plain Reader.
+(* C02 - serialize then parse gives back the same document model.
+   Statements only; proofs are in Xml/RoundTrip.v (and Ns/PrefixFacts.v for the prefix table).
+
+   Model: Xml/Plain.v `serialize caller ord t` (prefix collection of C13, then the plain serializer over the
+   generated escape tables; byte-for-byte equal to TagNode.serialize(namespaces=...) on every run of the check).
+   Reader: Xml/Reader.v `parse` (lexer with fuel, recursive descent with fuel over the tokens, namespaces resolved
+   while descending; compared with lxml on serializer output and on mutated input on every run of the check).
+   Names are compared as delb presents them (an un-prefixed attribute belongs to the default namespace in scope).
+
+   TARGET (the full property; NOT closed in this development, see "missing" below):
+
+     Theorem C02_roundtrip : forall t caller ord,
+       wf_tree t -> valid_caller caller -> caller_prefixes_colon_free caller -> order_ok (bfs_of t) ord ->
+       (N.of_nat (n_namespaces t + length caller + 17) < 2 ^ 16)%N ->
+       reparse (serialize caller ord t) = Some (merge_tree t).
+
+   with wf_tree = what the API guarantees (element / attribute local names and PI targets are NCNames other than
+   "xmlns" / "xml", no name in the xmlns namespace, attributes sorted by (namespace, local name) and distinct,
+   comment content passes CommentNode._validate_content, PI content without "?>", characters are XML Chars)
+   plus the property's exclusions (no CR in text / comments / PIs, no TAB LF CR in attribute values) plus the
+   guards of the open findings (no empty text node, PI content not starting with white space, namespace names
+   free of & < > and the double quote).
+
+   PROVED here, for all inputs of the stated kind (no bound on size or depth):
+     1. C02_unescape_escape_text / _attr   escaping with the generated tables is undone by the reader's unescape.
+     2. C02_lex_render        the lexer reads back ANY well-formed token stream in the serializer's canonical
+                              spelling (start / empty / end tags with any number of attributes, text, comments,
+                              PIs), fuel = length + 1 proved sufficient (stages 1 and 2 of the plan at the
+                              character level).
+     3. C02_read_kids_toks    the recursive descent gives back the children of any tree from its token stream,
+                              fuel proved sufficient, provided every element "resolves" (Xml/Tokens.v: its
+                              start tag opens without changing the environment and its names resolve to the
+                              tree's expanded names).
+     4. C02_parse_render_toks the composition parse (render_toks (toks_node pm t)) = Some (merge_tree t) for a
+                              tree whose elements resolve in the initial environment, i.e. a document that needs
+                              no declarations (elements and attributes in no namespace or in the xml namespace).
+     5. From C13 (Props/C13.v): collect succeeds and the prefix table is a function, injective, keeps "" un-prefixed,
+        leaves xml/xmlns alone, and own attributes never read as declarations.
+   MISSING (stated, not proved):
+     a. render_root pm t = render_toks (toks_root pm t): the dict built by _generate_attributes_data equals the
+        list of (qualified name, value) pairs (needs: qualified names of distinct attributes are distinct, which
+        follows from prefix_shape + split_colon + injectivity in Ns/PrefixFacts.v), and namespace names are
+        written raw (equal to their escaped form under the guard of finding C02-namespace-uri-not-escaped).
+     b. tok_ok for the tokens of a wf_tree (names are Names, characters are Chars: a per-node unfolding).
+     c. stage 3: `resolves` for every element under the environment made from declared_attributes pm, from the
+        clauses of C13 (c_covers, c_injective, c_empty, c_xml, prefix_shape) - the converse characterisation of
+        declared_attributes (every table entry is declared) is not proved.
+     d. merge: render pm t = render pm (merge_tree t) and wf_tree preserved by merge_tree, to pass from clean
+        trees to trees with adjacent text nodes.
+   The instances below (by computation) exercise the whole chain including a-d on concrete documents. *)
+From Coq Require Import List NArith Bool.
+From Delb.Base Require Import PyStr PyDict.
+From Delb.Gen Require Import GenNames GenNs.
+From Delb.Tree Require Import ATree Merge.
+From Delb.Ns Require Import Namespaces Prefixes.
+From Delb.Xml Require Import Plain Reader Tokens RoundTrip.
+Import ListNotations.
+
+Theorem C02_unescape_escape_text : forall s, Forall text_char_ok s -> unescape false (escape_text s) = Some s.
+Proof. exact unescape_escape_text. Qed.
+Print Assumptions C02_unescape_escape_text.
+
+Theorem C02_unescape_escape_attr : forall s, Forall attr_char_ok s -> unescape true (escape_attr s) = Some s.
+Proof. exact unescape_escape_attr. Qed.
+Print Assumptions C02_unescape_escape_attr.
+
+Theorem C02_lex_render : forall toks fuel,
+  Forall tok_ok toks -> no_adj_ttext toks -> length toks < fuel -> lex fuel (render_toks toks) = Some toks.
+Proof. exact lex_render. Qed.
+Print Assumptions C02_lex_render.
+
+Theorem C02_read_kids_toks : forall e pm fuel ks rest,
+  all_resolve e pm ks -> tail_ok rest -> length (toks_kids pm ks) < fuel ->
+  read_kids fuel e (toks_kids pm ks ++ rest) = Some (ks, rest).
+Proof. exact read_kids_toks. Qed.
+Print Assumptions C02_read_kids_toks.
+
+Theorem C02_parse_render_toks : forall pm t,
+  is_tag t = true -> resolves initial_env pm t ->
+  Forall tok_ok (toks_node pm t) -> no_adj_ttext (toks_node pm t) ->
+  parse (render_toks (toks_node pm t)) = Some (merge_tree t).
+Proof. exact parse_render_toks. Qed.
+Print Assumptions C02_parse_render_toks.
+
+(* ---- instances of the target statement, by computation ---------------------------------------------------
+   default namespace given by the caller, an un-namespaced child (forces the redeclaration), a caller prefix, a
+   generated prefix, the xml namespace, every special character, a comment, a PI, adjacent text nodes *)
+Definition c02_example_tree : node :=
+  Tag [117; 49]%N [114%N] [(xml_ns, [108; 97; 110; 103]%N, [101; 110]%N)]
+    [Text [97; 38; 60; 62; 34; 39; 93; 93; 62; 252; 8364]%N; Text [98%N];
+     Tag [] [97%N] [([], [106%N], [39; 38]%N); ([117; 50]%N, [107%N], [118; 34; 60; 62]%N)] [];
+     Comment [32; 99; 32; 60; 38]%N; PI [116%N] [112; 32; 63]%N;
+     Tag [117; 51]%N [98%N] [] [Text [120%N]]].
+Definition c02_example_caller : caller_map := [(None, [117; 49]%N); (Some [112%N], [117; 50]%N)].
+Example C02_example :
+  reparse (serialize c02_example_caller (default_order (bfs_of c02_example_tree)) c02_example_tree)
+  = Some (merge_tree c02_example_tree).
+Proof. vm_compute. reflexivity. Qed.
+Example C02_example_no_namespaces :
+  let t := Tag [] [114%N] [([], [107%N], [38; 34]%N)] [Text [60%N]; Tag [] [97%N] [] []; Text [62%N]] in
+  reparse (serialize [] (default_order (bfs_of t)) t) = Some (merge_tree t).
+Proof. vm_compute. reflexivity. Qed.
+
+(* ---- the open findings: the target statement is false without their guards ------------------------------- *)
+(* C02-empty-text-node (DESIGN 17): an empty text node makes the serializer raise *)
+Theorem C02_empty_text_refuted : exists t,
+  serialize [] (default_order (bfs_of t)) t = Crash InvalidCodePath.
+Proof. exists (Tag [] [114%N] [] [Text []]). vm_compute. reflexivity. Qed.
+Print Assumptions C02_empty_text_refuted.
+
+(* C02-pi-content-leading-whitespace: <?t  x?> is read back with content "x" *)
+Theorem C02_pi_leading_whitespace_refuted : exists t t',
+  reparse (serialize [] (default_order (bfs_of t)) t) = Some t' /\ t' <> merge_tree t.
+Proof.
+  exists (Tag [] [114%N] [] [PI [116%N] [32; 120]%N]). eexists. split; [vm_compute; reflexivity|].
+  vm_compute. intros H. discriminate H.
+Qed.
+Print Assumptions C02_pi_leading_whitespace_refuted.
+
+(* C02-namespace-uri-not-escaped: the namespace a&b is written raw, the output is not well-formed *)
+Theorem C02_namespace_uri_refuted : exists t,
+  reparse (serialize [] (default_order (bfs_of t)) t) = None.
+Proof. exists (Tag [97; 38; 98]%N [114%N] [] []). vm_compute. reflexivity. Qed.
+Print Assumptions C02_namespace_uri_refuted.
+
+(* C02-attribute-named-xmlns: the attribute is read back as a default namespace declaration *)
+Theorem C02_attribute_named_xmlns_refuted : exists t t',
+  reparse (serialize [] (default_order (bfs_of t)) t) = Some t' /\ t' <> merge_tree t.
+Proof.
+  exists (Tag [] [114%N] [([], XMLNS_, [117; 57]%N)] [Tag [] [97%N] [] []]). eexists. split; [vm_compute; reflexivity|].
+  vm_compute. intros H. discriminate H.
+Qed.
+Print Assumptions C02_attribute_named_xmlns_refuted.
